@@ -59,6 +59,12 @@ C07.utf8     the reader's own UTF-8 decoder (Symbol::from_slice_index) accepts a
              many octets (>= 0x80, 0x800, 0x10000): an overlong spelling of a
              blank, line feed or semicolon is not a character, so the token
              scanner and the item categoriser cannot disagree about it.
+C07.wordset  the characters that end an unquoted token (Symbol::is_word_char is
+             false) are exactly the octets SourceBuf::next_item treats
+             specially (white space, parentheses, `;`, `"`, line feed): a
+             character that ends a token but does not look special to the
+             item categoriser would start the next token at the same place --
+             no progress, the reader never returns.
 C07.at       a free-standing `@` stands for the origin wherever a domain name is
              read (RFC 1035 5.1): EntryScanner::scan_name asks skip_at_token
              before it converts labels, as the owner position does.
@@ -68,7 +74,7 @@ C07.panic    no unwrap/expect of a parse / conversion error and no explicit
 import re
 
 from mirlib import BranchFacts, strip, deep_strip, show, walk, const_value
-from rulelib import bool_facts, control_terms, facts_at, outcome_facts, return_assignments, flow_states
+from rulelib import bool_facts, control_terms, facts_at, outcome_facts, return_assignments, flow_states, must_pass
 import c03
 
 Z = "zonefile::inplace::"
@@ -95,6 +101,10 @@ def run(ctx):
     rule_fast(ctx, F)
     rule_utf8(ctx, F)
     rule_at(ctx, F)
+    rule_wordset(ctx, F)
+    import c18
+    c18.rule_tailcall(ctx, F)     # multi-token data: the converter is finished once, after the last token
+    c18.rule_eofguard(ctx, F)     # ... and a converter past its end-of-data marker takes no further symbol
 
 
 def _one(F, rx):
@@ -274,9 +284,30 @@ def rule_inherit(ctx, F):
     ctx.ob(R, o, "an explicit TTL is remembered as the last TTL", ok,
            "scan_owner_record does not store an explicitly given TTL in last_ttl (or stores it on the wrong path)")
     lc = stores.get("last_class", [])
-    ok = len(lc) == 1
+    ok = len(lc) >= 1
     ctx.ob(R, o, "the first explicit class is remembered", ok,
-           "scan_owner_record must remember the class when none was known (exactly one store to last_class)")
+           "scan_owner_record must remember the class when none was known (a store to last_class)")
+    # RFC 1035 5.1: "omitted class and TTL values default to the last explicitly stated values" -- every explicitly stated
+    # class is remembered, also when one was known already (matters once the same-class rule is switched off)
+    recs0 = [bb for bb, t in o.calls() if re.search(r"base::record::Record::<.*>::new$", t["fn"] or "")]
+    bf = BranchFacts(o, F)
+    some_edges = []
+    for sw in sorted(o.reachable_blocks()):
+        if o.blocks[sw]["t"]["k"] != "switch":
+            continue
+        for lab, (tm, v) in bf.edge_facts(sw).items():
+            tmd = deep_strip(tm)
+            # `match (class, self.zonefile.last_class)`: the edge on which the first component is Some
+            if isinstance(v, tuple) and v == ("variant", "Some") and tmd[0] == "field" and str(tmd[2]) == "0":
+                base = deep_strip(tmd[1])
+                if base[0] == "agg" and len(base[2]) == 2 and any(s[0] == "field" and s[2] == "last_class" for s in walk(base[2][1])):
+                    some_edges.append(o.edge_target(sw, lab))
+    if ctx.anchor(R, "the `class is stated` edge in scan_owner_record", len(some_edges) >= 1 and len(recs0) == 1, o.where()):
+        okc = all(must_pass(o, e_, recs0, [bi for bi, _ in lc])[0] for e_ in some_edges)
+        ctx.ob(R, o, "every explicitly stated class becomes the last class", okc,
+               "scan_owner_record remembers an explicitly stated class only while none is known: with the same-class rule "
+               "switched off (allow_invalid) `a IN A ..` / `b CH A ..` / `c A ..` gives `c` the class IN, not the last stated "
+               "class CH (RFC 1035 5.1)")
     # the record: which ttl / class values reach Record::new
     recs = [(bb, t) for bb, t in o.calls() if re.search(r"base::record::Record::<.*>::new$", t["fn"] or "")]
     if ctx.anchor(R, "Record::new in scan_owner_record", len(recs) == 1, o.where()):
@@ -954,3 +985,38 @@ def rule_at(ctx, F):
     if ow:
         ctx.ob(R, ow[0], "the owner position recognises `@`", any(re.search(r"skip_at_token$", tt["fn"] or "") for _, tt in ow[0].calls()),
                "scan_entry no longer asks skip_at_token for the owner")
+
+
+def rule_wordset(ctx, F):
+    R = "C07.wordset"
+    ctx.floor(R, 1)
+    import c06
+    delim = c06.reader_delimiters(F)
+    b = _one(F, r"^zonefile::inplace::SourceBuf::next_item$")
+    if not ctx.anchor(R, "Symbol::is_word_char / SourceBuf::next_item", delim is not None and b is not None):
+        return
+
+    def subj(t):
+        t = deep_strip(t)
+        while t[0] == "cast":
+            t = deep_strip(t[2])
+        s = show(t)
+        return "get(" in s and "Some" in s
+    parts = c03.byte_partition(b, F, subj)
+    if not ctx.anchor(R, "octet classification of next_item", bool(parts), b.where()):
+        return
+    # octets for which next_item does *not* start an unquoted token
+    unq = set()
+    for octs, leaf, path in parts:
+        for bb in list(path) + [leaf]:
+            for st in b.blocks[bb]["s"]:
+                if st[0] == "=" and len(st[1]) >= 3 and isinstance(st[1][-1], list) and st[1][-1][0] == "." and st[1][-1][2] == "cat":
+                    rv = deep_strip(b.term_of_rvalue(st[2]))
+                    if rv[0] == "agg" and rv[1][2] == "Unquoted":
+                        unq |= set(octs)
+    special = set(range(256)) - unq
+    dl = {d for d in delim if d < 128}
+    ctx.ob(R, b, "token-ending characters == octets the item categoriser treats specially", dl == special,
+           "Symbol::is_word_char ends a token at %s while SourceBuf::next_item treats %s specially: an octet in one set only "
+           "(%s) ends a token without being consumed and starts the next one at the same position -- convert_entry never "
+           "returns" % (_fmt(dl), _fmt(special), _fmt(dl ^ special)))
